@@ -13,7 +13,7 @@ META = {
                      'z3 (Real/Int) for the inequality obligations, sympy Poly over Q for the identities', 'machine arithmetic treated as mathematical'],
     'assumptions': ['orthorhombic: positive diagonal; triclinic: lower-triangular column form a=(ax,0,0), b=(bx,by,0), c=(cx,cy,cz) with positive diagonal',
                     'box volume/height obligations: right-handed box (det > 0) for the height'],
-    'not_decided': ['Topology::autoDetectBoxType (Eigen isApproxToConstant tolerance semantics)', 'IEEE rounding ("to rounding" clauses are proved exactly over the reals)',
+    'not_decided': ['IEEE rounding ("to rounding" clauses are proved exactly over the reals)',
                     'exact ties |x - k| = 1/2 are resolved by the contract either way (the code rounds half away from zero)'],
 }
 CO = 'xyz'
@@ -245,6 +245,11 @@ def job_volume_height(seed):
         if not P.next():
             break
     # getShortestBoxDimension: each candidate is det / |cross product of the other two box vectors| (= height of the parallelepiped for det > 0)
+    # boxes in the lower-triangular column form the library uses (a = (ax,0,0), b = (bx,by,0), c = (cx,cy,cz), positive diagonal)
+    bxs, (sax, sby, scz) = boxes()
+    B = bxs['triclinic']
+    M = sp.Matrix([[B.g(i, j).v for j in range(3)] for i in range(3)])
+    det = sp.expand(M.det())
     fn = fns['getShortestBoxDimension'][0]
     cands = {}
     P = rvc.Paths()
@@ -262,6 +267,17 @@ def job_volume_height(seed):
         except Ret as r:
             v = D.lift(r.v).v
         npaths += 1
+        if not all(k in ex.env for k in ('la', 'lb', 'lc')):
+            # the body no longer has the three named heights: structure-independent obligation only (value is one of the three heights)
+            cols = [B.col(j) for j in range(3)]
+            areas = [cols[1].cross(cols[2]).squaredNorm().v, cols[2].cross(cols[0]).squaredNorm().v, cols[0].cross(cols[1]).squaredNorm().v]
+            hit = [rvc.nf_zero(v ** 2 * ar - det ** 2) for ar in areas]
+            o = rvc.identity('C02.height/one-of.p%d' % npaths, 'BoundaryCondition::getShortestBoxDimension', 'returned value^2 * (base area)^2 == det(box)^2 for one of the three faces (value is a height of the parallelepiped)',
+                             sp.expand((v ** 2 * areas[0] - det ** 2) * (v ** 2 * areas[1] - det ** 2) * (v ** 2 * areas[2] - det ** 2)) if not any(hit) else sp.Integer(0), sp.Integer(0), seed)
+            obs.append(o)
+            if not P.next():
+                break
+            continue
         la, lb, lc = [D.lift(ex.env[k]).v for k in ('la', 'lb', 'lc')]
         cols = [B.col(j) for j in range(3)]
         areas = [cols[1].cross(cols[2]).squaredNorm().v, cols[2].cross(cols[0]).squaredNorm().v, cols[0].cross(cols[1]).squaredNorm().v]
@@ -324,6 +340,86 @@ def job_dispatch(seed):
     return obs
 
 
+def job_topology(seed):
+    """Topology: getDist(i, j) = bc(r_i, r_j) in this order; BCShortestConnection / BoxVolume / ShortestBoxSize forward to the boundary object;
+    autoDetectBoxType: zero matrix -> open, diagonal -> orthorhombic, anything else -> triclinic (isApproxToConstant(0) is exact: |x| <= p*min(|x|,0))"""
+    rvc.reset()
+    rel = 'csg/src/libcsg/topology.cc'
+    fns = rvc.functions(rvc.ast(rel, 'Topology::'))
+    obs = []
+    calls = []
+    pos = {0: Mx.sym('p', 3), 1: Mx.sym('q', 3)}
+    bcobj = {'__class__': 'BC'}
+    cb = {'getBead': lambda t, i: {'i': i}, 'getPos': lambda b: pos[b['i']],
+          'BCShortestConnection': lambda o, a, b: (calls.append((o, a, b)), Mx.sym('res', 3))[1], 'BoxVolume': lambda o: (calls.append(('vol', o)), D(sp.Symbol('V')))[1],
+          'getShortestBoxDimension': lambda o: (calls.append(('h', o)), D(sp.Symbol('H')))[1]}
+    this = {'bc_': bcobj}
+    for need in ('getDist', 'BoxVolume', 'ShortestBoxSize', 'autoDetectBoxType', 'BCShortestConnection'):
+        if need not in fns:
+            raise core.Undecided('front end: Topology::%s not found' % need)
+    # Topology::BCShortestConnection (inline in topology.h) forwards to bc_
+    ex = Exec({'bead1': 0, 'bead2': 1}, cb, {'BCShortestConnection': fns['BCShortestConnection']}, this)
+    del cb['BCShortestConnection']
+    cb['BCShortestConnection'] = lambda o, a, b: (calls.append((o, a, b)), Mx.sym('res', 3))[1] if o is bcobj else NotImplemented
+    def bc_call(o, a, b):
+        if o is bcobj:
+            calls.append((o, a, b))
+            return Mx.sym('res', 3)
+        return ex.call_fn(fns['BCShortestConnection'][0], [a, b], this)
+    cb['BCShortestConnection'] = bc_call
+    try:
+        ex.stmt(rvc.body_of(fns['getDist'][0]))
+        r = None
+    except Ret as rr:
+        r = rr.v
+    ok = len(calls) == 1 and calls[0][0] is bcobj and calls[0][1] is pos[0] and calls[0][2] is pos[1] and isinstance(r, Mx)
+    obs.append(Ob('C02.topology/getDist', 'Topology::getDist', 'getDist(i, j) is the boundary object\'s shortest connection from bead i to bead j (argument order r_i, r_j), returned unchanged', 'RVC', 'symbolic execution',
+                  core.PROVED if ok else core.REFUTED, 0, '', witness=None if ok else {'calls': len(calls)}))
+    for nm, key in (('BoxVolume', 'vol'), ('ShortestBoxSize', 'h')):
+        del calls[:]
+        ex = Exec({}, cb, {}, this)
+        try:
+            ex.stmt(rvc.body_of(fns[nm][0]))
+            r = None
+        except Ret as rr:
+            r = rr.v
+        ok = calls == [(key, bcobj)] and isinstance(r, D) and r.v == sp.Symbol('V' if key == 'vol' else 'H')
+        obs.append(Ob('C02.topology/%s' % nm, 'Topology::' + nm, 'forwards to the boundary object and returns its value', 'RVC', 'symbolic execution', core.PROVED if ok else core.REFUTED, 0, '', witness=None if ok else {'calls': str(calls)}))
+    # autoDetectBoxType
+    enumv = {'typeAuto': 0, 'typeTriclinic': 1, 'typeOrthorhombic': 2, 'typeOpen': 3}
+    cases = {'zero': (Mx(3, 3), 3), 'diagonal': (Mx(3, 3, [[D(sp.Symbol('ax', positive=True)), D(0), D(0)], [D(0), D(sp.Symbol('by', positive=True)), D(0)], [D(0), D(0), D(sp.Symbol('cz', positive=True))]]), 2)}
+    for (i, j) in ((0, 1), (0, 2), (1, 2), (1, 0), (2, 0), (2, 1)):
+        m = Mx(3, 3, [[D(sp.Symbol('ax', positive=True)), D(0), D(0)], [D(0), D(sp.Symbol('by', positive=True)), D(0)], [D(0), D(0), D(sp.Symbol('cz', positive=True))]])
+        m.p(i, j, D(sp.Symbol('off', positive=True)))
+        cases['offdiag%d%d' % (i, j)] = (m, 1)
+    def approx0(m, c, *a):
+        if not (isinstance(c, int) and c == 0) and not (isinstance(c, D) and c.v == 0):
+            raise rvc.Unsupported('isApproxToConstant with a non-zero constant')
+        vals = [e.v for e in m.flat()]
+        if all(v == 0 for v in vals): return True
+        if any(v.is_positive or v.is_negative for v in vals): return False
+        raise rvc.Unsupported('isApproxToConstant on entries of unknown sign')
+    def asDiagonal(m):
+        out = Mx(m.r, m.r)
+        for k in range(m.r):
+            out.p(k, k, m.g(k))
+        return out
+    for nm, (box, exp) in cases.items():
+        cbx = {'enum': lambda n: enumv[n], 'isApproxToConstant': approx0, 'asDiagonal': asDiagonal}
+        ex = Exec({'box': box}, cbx, {}, this)
+        try:
+            ex.stmt(rvc.body_of(fns['autoDetectBoxType'][0]))
+            r = None
+        except Ret as rr:
+            r = rr.v
+        obs.append(Ob('C02.topology/autodetect.%s' % nm, 'Topology::autoDetectBoxType', 'auto-detected box type: zero matrix -> open, diagonal -> orthorhombic, any off-diagonal element -> triclinic', 'RVC', 'symbolic execution',
+                      core.PROVED if r == exp else core.REFUTED, 0, str(r), witness=None if r == exp else {'case': nm, 'returned': str(r)}))
+    mf = [{'name': 'Topology::' + k, 'file': rel, 'ast_nodes': rvc.node_count(fns[k][0])} for k in ('getDist', 'BoxVolume', 'ShortestBoxSize', 'autoDetectBoxType', 'BCShortestConnection')]
+    for o in obs:
+        o['functions'] = mf
+    return obs
+
+
 def collect(obs):
     seen = set(f['name'] for f in META['functions'])
     for o in obs:
@@ -334,7 +430,7 @@ def collect(obs):
 
 
 def run(tier, seed, only=None):
-    jobs = [(job_bc, ('triclinic', seed)), (job_bc, ('orthorhombic', seed)), (job_bc, ('open', seed)), (job_volume_height, (seed,)), (job_dispatch, (seed,)), (job_short_triclinic, (seed,))]
+    jobs = [(job_bc, ('triclinic', seed)), (job_bc, ('orthorhombic', seed)), (job_bc, ('open', seed)), (job_volume_height, (seed,)), (job_dispatch, (seed,)), (job_short_triclinic, (seed,)), (job_topology, (seed,))]
     if only:
         jobs = [j for j in jobs if re.search(only, j[0].__name__ + str(j[1]))]
     obs = core.pmap(jobs)
